@@ -131,7 +131,8 @@ def do_fit(est, case, a, b, op):
         Xs = [X[a:b] for X in case["Xs"]]
         y = None if case["y"] is None else case["y"][a:b]
         if y is not None and case.get("ydtype"):
-            y = y.astype({"bool": bool, "int8": np.int8, "uint8": np.uint8, "float64": np.float64}[case["ydtype"]])
+            y = y.astype({"bool": bool, "int8": np.int8, "uint8": np.uint8, "float64": np.float64,
+                          "int32": np.int32, "uint32": np.uint32, "int64": np.int64}[case["ydtype"]])
         return est.fit(Xs, y, **kw) if op == "fit" else est.partial_fit(Xs, y, **kw)
 
 
@@ -431,6 +432,96 @@ def correspondence(ctx, N, nmax):
         cov.traces += 1
 
 
+# ------------------------------------------------------------------ class labels are identifiers, not small indices
+
+# (base, name): supervised targets are identifiers of any magnitude -- year-month stamps, record ids, hashes -- and two
+# distinct identifiers stay distinct however small their difference is relative to their size
+LABEL_BASES = [(202401, "yyyymm"), (10 ** 6, "1e6"), (10 ** 9, "1e9"), (2 ** 31 - 3, "across-2^31"),
+               (10 ** 12, "1e12"), (2 ** 52, "2^52")]
+
+
+def code_labels(r, case):
+    """re-code the class targets of a supervised case as large, closely spaced identifiers (same partition of the samples)"""
+    _, y0 = np.unique(np.asarray(case["y"]).astype(np.int64), return_inverse=True)
+    base, bname = r.choice(LABEL_BASES)
+    kc = int(y0.max()) + 1
+    spacing = r.choice(["consecutive", "consecutive", "gaps"])
+    offs = list(range(kc)) if spacing == "consecutive" else sorted(r.sample(range(12), kc))
+    r.shuffle(offs)                                   # the order of the codes need not follow the order of first appearance
+    y = (base + np.array(offs, dtype=np.int64))[y0]
+    dts = ["int64", "int64", "float64"]
+    if int(y.max()) < 2 ** 31:
+        dts.append("int32")
+    if int(y.max()) < 2 ** 32:
+        dts.append("uint32")
+    case["y"], case["ydtype"] = y, r.choice(dts)
+    return bname, spacing, kc
+
+
+def identifier_labels(ctx, M, nmax):
+    """supervised DeepARTMAP whose targets are large, closely spaced identifiers: the whole C12 oracle after fit, after
+    every partial_fit batch, fit == batching, and predict"""
+    cov = ctx.cov
+    for j in range(M):
+        r = gen.rng_for(ctx.seed, "C12-ids", j)
+        case = gen_case(r, 3 * j, nmax, floats=j % 4 == 3)          # 3j: supervised; classes and modes cycle with j
+        if len(set(case["y"].tolist())) < 2 and case["n"] >= 2:
+            case["y"] = gen.labels(r, case["n"], r.randint(2, 4))   # the situation needs two identifiers to tell apart
+        bname, spacing, kc = code_labels(r, case)
+        cls, n = case["cls"], case["n"]
+        name = "DeepARTMAP-sup"
+        rep = {"kind": "sup", "spec": case["spec"], "Xs": [X.tolist() for X in case["Xs"]], "y": case["y"].tolist(),
+               "y_dtype": case["ydtype"], "mode": case["mode"], "eps": case["eps"], "label_coding": [bname, spacing]}
+        parts = gen.compositions(r, n)
+        if len(parts) == 1 and n > 1:
+            c = r.randint(1, n - 1)
+            parts = [c, n - c]
+        rep["parts"] = parts
+        key = ("ids", case["spec"], rep["Xs"], rep["y"], case["ydtype"], case["mode"], case["eps"], parts)
+        try:
+            e_fit, e_pf = build(case), build(case)
+            do_fit(e_fit, case, 0, n, "fit")
+        except Exception as e:
+            ctx.issue("violation", f"{name}({cls}).fit:{exc_enum(e)}:identifier-labels",
+                      f"fit raised {e!r} on valid data (labels {sorted(set(rep['y']))} as {case['ydtype']}, mode {case['mode']})", rep)
+            cov.case(key, False)
+            continue
+        oracle(ctx, e_fit, case, n, f"fit, labels {bname}/{spacing}/{case['ydtype']}", rep)
+        jj, pf_ok = 0, True
+        for p in parts:
+            try:
+                do_fit(e_pf, case, jj, jj + p, "pfit")
+            except Exception as e:
+                ctx.issue("violation", f"{name}({cls}).partial_fit:{exc_enum(e)}:identifier-labels",
+                          f"partial_fit rows {jj}:{jj + p} raised {e!r} on valid data (labels {sorted(set(rep['y']))} as "
+                          f"{case['ydtype']}, mode {case['mode']})", rep)
+                pf_ok = False
+                break
+            jj += p
+            oracle(ctx, e_pf, case, jj, f"partial_fit {parts} after {jj}, labels {bname}/{spacing}/{case['ydtype']}", rep)
+        if pf_ok:
+            sa, sb = snapshot(e_fit), snapshot(e_pf)
+            if not same_snapshot(sa, sb):
+                ctx.issue("violation", f"{name}:fit!=partial_fit-batching",
+                          f"batching {parts}: labels_deep_ fit {sa['cols'].T.tolist()} partial_fit {sb['cols'].T.tolist()}; "
+                          f"maps {sa['maps']} vs {sb['maps']}", rep)
+        Xl = case["Xs"][-1]
+        Q = np.vstack([Xl[[r.randrange(n) for _ in range(min(n, 4))]],
+                       specs.elem_data(r, case["classes"][-1], 3, case["ds"][-1])])
+        L = np.asarray(e_fit.labels_deep_)
+        oracle_predict(ctx, e_fit, case, Q, L, f"fit, labels {bname}/{spacing}/{case['ydtype']}", dict(rep, Q=Q.tolist()))
+        cov.case(key, nontrivial=kc >= 2)                # at least two identifiers that the veto has to keep apart
+        cov.hit("identifier-labels")
+        cov.hit(f"identifier-labels:base={bname}")
+        cov.hit(f"identifier-labels:{spacing}")
+        cov.hit(f"identifier-labels:dtype={case['ydtype']}")
+        cov.hit(f"identifier-labels:mode={case['mode']}")
+        cov.hit(f"identifier-labels:classes={kc}")
+        yv = np.unique(case["y"]).astype(float)
+        if kc >= 2 and np.min(np.diff(yv)) <= 1e-5 * np.max(np.abs(yv)):
+            cov.hit("identifier-labels:relative-gap<=1e-5")
+
+
 # ------------------------------------------------------------------ main loop
 
 
@@ -540,6 +631,7 @@ def run(ctx):
                         "mode": case["mode"], "n": n, "parts": parts, "labels_deep_": L.T.tolist(),
                         "maps": [{int(p): int(q) for p, q in Ly.map.items()} for Ly in e_fit.layers],
                         "predict": None if P is None else [p.tolist() for p in P], "oracle_ok": ok})
+    identifier_labels(ctx, ctx.scale(120, 1600), nmax)
     correspondence(ctx, ctx.scale(480, 6000), ctx.scale(12, 30))
     ctx.trusted.append("C12: rounding inside the level kernels is outside the theorems (the nesting argument is order-only "
                        "and kernel-independent; the tie runs exact kernels on grid data)")
